@@ -1,0 +1,44 @@
+//go:build verif
+
+package bits
+
+// Property C15 (agent c15): additional clause for the EBSP reader, merged with the contract in verif_contracts.go.
+// A byte-aligned 8-bit read that does not meet an emulation prevention byte (03 after two zero bytes) consumes exactly one
+// byte of the underlying stream and returns it; the zero-run monitor follows the standard's decoder. This links the value
+// returned by Read to the RAW input bytes (the C13 clauses link it to the decoded payload rpay), which callers that create
+// their reader internally need for postconditions about their []byte argument.
+//@ pred rd8(r *EBSPReader, n int) = erInv(r) && r.n == 0 && n == 8 && !(ghost(r.rd).rz == 2 && ghost(r.rd).rdata[ghost(r.rd).rpos] == 3)
+//@ func (*EBSPReader).Read
+//@   ensures[C15] r.err == nil && old(rd8(r, n)) ==> r.n == 0 && ghost(r.rd).rpos == old(ghost(r.rd).rpos) + 1 && result == uint(ghost(r.rd).rdata[old(ghost(r.rd).rpos)]) && ghost(r.rd).rz == ite(ghost(r.rd).rdata[old(ghost(r.rd).rpos)] == 0, old(ghost(r.rd).rz) + 1, 0)
+//@   loop 1 invariant old(rd8(r, n)) ==> (r.n == 0 && ghost(r.rd).rpos == old(ghost(r.rd).rpos) && ghost(r.rd).rz == old(ghost(r.rd).rz) && r.v == 0) || (r.n == 8 && ghost(r.rd).rpos == old(ghost(r.rd).rpos) + 1 && r.v == uint(ghost(r.rd).rdata[old(ghost(r.rd).rpos)]) && ghost(r.rd).rz == ite(ghost(r.rd).rdata[old(ghost(r.rd).rpos)] == 0, old(ghost(r.rd).rz) + 1, 0))
+
+// Frames of the EBSP reader's read methods: only the reader's own fields and the ghost state of its stream change (callers
+// such as avc.ParseSPSNALUnit need to know that their []byte argument is left alone).
+//@ func (*EBSPReader).Read
+//@   assigns r.err, r.n, r.v, r.pos, r.zeroCount, ghost(r.rd).rpos, ghost(r.rd).rz, ghost(r.rd).rpay, ghost(r.rd).rplen
+//@ func (*EBSPReader).ReadFlag
+//@   assigns r.err, r.n, r.v, r.pos, r.zeroCount, ghost(r.rd).rpos, ghost(r.rd).rz, ghost(r.rd).rpay, ghost(r.rd).rplen
+//@ func (*EBSPReader).ReadExpGolomb
+//@   assigns r.err, r.n, r.v, r.pos, r.zeroCount, ghost(r.rd).rpos, ghost(r.rd).rz, ghost(r.rd).rpay, ghost(r.rd).rplen
+//@ func (*EBSPReader).ReadSignedGolomb
+//@   assigns r.err, r.n, r.v, r.pos, r.zeroCount, ghost(r.rd).rpos, ghost(r.rd).rz, ghost(r.rd).rpay, ghost(r.rd).rplen
+
+// Reads of 33..56 bits (profile_tier_level has a 48-bit field): byte count, remaining bits and value in terms of the decoded
+// payload, extending the C13 clauses (which stop at 32 bits). rdB: up to 7 payload bytes, big-endian.
+//@ spec rdB(d [1099511627776]byte, p int, m int) uint = ite(m <= 4, rdBytes(d, p, m), rdBytes(d, p, 4) << uint(8*(m-4)) | rdBytes(d, p+4, m-4))
+//@ pred rdW(r *EBSPReader, n int) = 32 < n && n <= 56 && erInv(r)
+//@ func (*EBSPReader).Read
+//@   ensures[C15] r.err == nil && old(rdW(r, n)) ==> ghost(r.rd).rplen == old(ghost(r.rd).rplen) + nrBytes(old(r.n), n) && r.n == old(r.n) + 8*nrBytes(old(r.n), n) - n
+//@   ensures[C15] r.err == nil && old(rdW(r, n)) ==> result == ((old(r.v) << uint(8*nrBytes(old(r.n), n))) | rdB(ghost(r.rd).rpay, old(ghost(r.rd).rplen), nrBytes(old(r.n), n))) >> uint(r.n)
+//@   loop 1 invariant old(rdW(r, n)) ==> (r.n-old(r.n))/8 <= 7 && ghost(r.rd).rplen == old(ghost(r.rd).rplen) + (r.n-old(r.n))/8
+//@   loop 1 invariant old(rdW(r, n)) ==> r.v == (old(r.v) << uint(r.n-old(r.n))) | rdB(ghost(r.rd).rpay, old(ghost(r.rd).rplen), (r.n-old(r.n))/8)
+
+// The payload decoded so far is never rewritten by later reads (ReadFlag; Read has this clause under C13), and a flag that
+// is already buffered (r.n >= 1) is the top bit of the accumulator; nothing is consumed from the stream.
+//@ func (*EBSPReader).ReadFlag
+//@   uses C13
+//@   ensures[C15] old(r.err) == nil && old(erInvW(r)) ==> forall i int :: 0 <= i && i < old(ghost(r.rd).rplen) ==> ghost(r.rd).rpay[i] == old(ghost(r.rd).rpay[i])
+//@   ensures[C15] old(r.err) == nil && r.err == nil && old(erInvW(r)) ==> ghost(r.rd).rplen >= old(ghost(r.rd).rplen)
+//@   ensures[C15] r.err == nil && old(erInv(r)) && old(r.n) >= 1 ==> result == ((old(r.v) >> uint(old(r.n)-1)) & 1 == 1) && r.n == old(r.n) - 1 && r.v == old(r.v) & mask(r.n) && ghost(r.rd).rplen == old(ghost(r.rd).rplen) && ghost(r.rd).rpay == old(ghost(r.rd).rpay)
+//@ func (*EBSPReader).Read
+//@   ensures[C15] old(r.err) == nil && r.err == nil && old(erInvW(r)) ==> ghost(r.rd).rplen >= old(ghost(r.rd).rplen)
